@@ -112,6 +112,7 @@ func TestCheck(t *testing.T) {
 			r.Eval(1)
 			r.Count("sequences", 1)
 			r.Count("baseline_runs", 1)
+			countRun(r, base)
 			judge(r, seq, nil, base, nil)
 			// what already goes wrong without any fault is not attributed to a fault in the faulted runs of the sequence
 			inBaseline := map[string]bool{}
@@ -148,6 +149,7 @@ func TestCheck(t *testing.T) {
 				}
 				r.Count("fault_runs", 1)
 				r.Count("fault_runs_"+order, 1)
+				countRun(r, res)
 				r.Distinct(vkit.Hash64(seq.String(), fmt.Sprint(fs)))
 				judge(r, seq, fs, res, inBaseline)
 				k := last.kind
@@ -211,6 +213,13 @@ func TestCheck(t *testing.T) {
 		sort.Strings(missing)
 		r.Require(len(missing) == 0, "fault kinds hardly exercised: "+strings.Join(missing, ","))
 		r.Require(r.Counter("fault_runs") >= int64(r.N(5000, 150000)), "too few fault runs")
+		r.Require(r.Counter("runs_with_next_holder_working_and_third_holder_loading") >= int64(r.N(3000, 90000)), "the next holder hardly ever worked on what it loaded")
+		r.Require(r.Counter("conditions_saved_again_after_acknowledged_delete") >= int64(r.N(1000, 30000)), "too few conditions saved again under the same name after their deletion")
+		r.Require(r.Counter("saves_of_an_object_shared_with_the_caller") >= int64(r.N(10000, 300000)), "aliased saves (Get + change in place + Save; change + re-Save) hardly exercised")
+		r.Require(r.Counter("stop_called_again_after_success") >= int64(r.N(1000, 30000)), "Stop() after a successful Stop() hardly exercised")
+		r.Require(r.Counter("runs_with_stop_or_flush_retried_after_error") >= int64(r.N(200, 6000)), "too few stop/flush retries after an error")
+		r.Require(r.Counter("runs_with_same_server_gaining_both_shards") >= int64(r.N(2000, 60000)), "too few runs with one server gaining both shards")
+		r.Require(kinds["conflict-storm"] >= r.N(300, 9000), "retry budget exhaustion (conflict storm) hardly exercised")
 		for _, v := range []string{"update", "create", "delete", "list", "get"} {
 			n := 0
 			for kv, c := range hitVerbs {
@@ -241,6 +250,26 @@ func faultClass(k faultKind, verb string) string {
 		return "crash"
 	}
 	return "api-error"
+}
+
+// countRun: what a run actually exercised beyond the fault itself.
+func countRun(r *vkit.R, res runResult) {
+	r.Count("next_holder_operations_after_load", res.TakeoverOps)
+	if res.TakeoverOps > 0 {
+		r.Count("runs_with_next_holder_working_and_third_holder_loading", 1)
+	}
+	r.Count("conditions_saved_again_after_acknowledged_delete", res.Recreated)
+	r.Count("stop_called_again_after_success", res.StopAgain)
+	r.Count("saves_of_an_object_shared_with_the_caller", res.AliasedSaves)
+	if res.Retried {
+		r.Count("runs_with_stop_or_flush_retried_after_error", 1)
+	}
+	if res.RanBetween {
+		r.Count("runs_where_concurrent_operation_ran_between_flush_calls", 1)
+	}
+	if res.NewServerFirst {
+		r.Count("runs_with_same_server_gaining_both_shards", 1)
+	}
 }
 
 func describeFaults(fs []fault, hitVerb string) string {
@@ -307,7 +336,10 @@ func judge(r *vkit.R, seq sequence, fs []fault, res runResult, inBaseline map[st
 		if res.StorePanic != nil {
 			sig += "/store-panicked"
 		}
-		if res.NewServerFirst && strings.HasPrefix(f.Oracle, "load-") {
+		if f.Phase != "" {
+			sig += "/" + f.Phase
+		}
+		if res.NewServerFirst && strings.HasPrefix(f.Oracle, "load-") && f.Phase == "" {
 			sig += "/same-server-gained-other-shard-first"
 		}
 		if f.Shape != "" && f.Shape != "save" && (f.Oracle == "acknowledged-condition-not-persisted" || f.Oracle == "acknowledged-save-not-persisted-at-ack") && !retried {
